@@ -418,7 +418,8 @@ func init() {
 				runBlock(a, t, genTxs(a, accts, rng, 3))
 			}
 			planHeight := a.Height + 2 // scheduled inside block a.Height+1: the new binary must meet the plan at the very next block
-			restartAt := rng.Intn(4) // 0: none, 1: before, 2: at (after the upgrade block committed), 3: after
+			restartAt := []int{1, 0, 2, 3}[(h+rng.Intn(2)*0)%4] // every kind in turn; 0: none, 1: before, 2: at (after the upgrade block committed), 3: after
+			s.Inflight(fmt.Sprintf("mon.c19.upgrade history=%d name=v2.2.1 height=%d restart=%d", h, planHeight, restartAt))
 			s.Emit(fmt.Sprintf("mon.c19.upgrade history=%d name=v2.2.1 height=%d restart=%d", h, planHeight, restartAt), func() (ans string) {
 				defer func() {
 					if r := recover(); r != nil {
@@ -442,6 +443,12 @@ func init() {
 					if a.Height+1 == planHeight {
 						before = dumpsOf(a, a.QueryCtx())
 						if restartAt == 1 {
+							// what an operator's node does: the old binary halts in front of the upgrade block and leaves
+							// upgrade-info.json in its home; the binary started next reads it and applies the release's
+							// store upgrades before loading the stores
+							if err := a.App.UpgradeKeeper.DumpUpgradeInfoToDisk(planHeight, upgradetypes.Plan{Name: "v2.2.1", Height: planHeight}); err != nil {
+								return "fail #dump-upgrade-info " + err.Error()
+							}
 							a = reopen(a)
 						}
 					}
@@ -495,14 +502,23 @@ func init() {
 			panic(err)
 		}
 		owner := accts[0].Bech()
-		// two kinds of reads: a listing (store iterator) and a single item (store Get)
-		kinds := []string{"listing", "item"}
+		ownerB := accts[1].Bech()
+		// reads: listings (store iterators) of two different owners and of a topic's writers — served by different
+		// goroutines at the same time, as the gRPC server does — and a single item (store Get)
+		kinds := []string{"listing", "listing-b", "writers", "item"}
 		q := func(kind string, height int64) string {
 			var r abci.ResponseQuery
-			if kind == "listing" {
+			if kind == "listing" || kind == "listing-b" {
 				req := aoltypes.QueryTopicsRequest{OwnerAddress: owner}
+				if kind == "listing-b" {
+					req.OwnerAddress = ownerB
+				}
 				bz, _ := req.Marshal()
 				r = a.App.Query(abci.RequestQuery{Path: "/panacea.aol.v2.Query/Topics", Data: bz, Height: height})
+			} else if kind == "writers" {
+				req := aoltypes.QueryWritersRequest{OwnerAddress: owner, TopicName: "t0"}
+				bz, _ := req.Marshal()
+				r = a.App.Query(abci.RequestQuery{Path: "/panacea.aol.v2.Query/Writers", Data: bz, Height: height})
 			} else {
 				req := aoltypes.QueryTopicRequest{OwnerAddress: owner, TopicName: "t0"}
 				bz, _ := req.Marshal()
@@ -522,7 +538,7 @@ func init() {
 		nq := 0
 		stop := make(chan struct{})
 		var wg sync.WaitGroup
-		for g := 0; g < 4; g++ {
+		for g := 0; g < 6; g++ {
 			wg.Add(1)
 			go func(g int) {
 				defer wg.Done()
@@ -544,7 +560,7 @@ func init() {
 					if r.Intn(3) == 0 {
 						h = hs[r.Intn(len(hs))]
 					}
-					kind := kinds[r.Intn(2)]
+					kind := kinds[r.Intn(len(kinds))]
 					got := q(kind, h)
 					mu.Lock()
 					nq++
@@ -568,11 +584,18 @@ func init() {
 			if err != nil {
 				panic(err)
 			}
+			bzB, err := a.BuildTx(TxSpec{Msgs: []sdk.Msg{&aoltypes.MsgCreateTopicRequest{TopicName: fmt.Sprintf("b-topic-%d", bl), Description: "b", OwnerAddress: ownerB}}, Signers: []SignerSpec{{Acct: accts[1]}}, Fee: 1})
+			if err != nil {
+				panic(err)
+			}
 			a.App.CheckTx(abci.RequestCheckTx{Tx: bz, Type: abci.CheckTxType_New})
 			a.App.Simulate(bz)
 			a.Begin(t)
 			if r := a.Deliver(bz); r.Code != 0 {
 				panic("conc: tx failed: " + r.Log)
+			}
+			if r := a.Deliver(bzB); r.Code != 0 {
+				panic("conc: tx B failed: " + r.Log)
 			}
 			time.Sleep(time.Millisecond)
 			a.End()
